@@ -38,14 +38,14 @@ Definition ends (o : op) (h : N) : bool :=
   match o with OCommit h' | ORollback h' => N.eqb h' h | OReopen => true | _ => false end.
 
 Definition tx_le (t t' : atx) : Prop :=
-  t_id t' = t_id t /\ t_lvl t' = t_lvl t /\ incl (t_dirty t) (t_dirty t').
+  t_id t' = t_id t /\ t_lvl t' = t_lvl t /\ incl (t_dirty t) (t_dirty t') /\ t_snap t' = t_snap t.
 
 Lemma tx_le_refl t : tx_le t t.
 Proof. repeat split. apply incl_refl. Qed.
 
 Lemma tx_le_trans t1 t2 t3 : tx_le t1 t2 -> tx_le t2 t3 -> tx_le t1 t3.
 Proof.
-  intros (A1 & A2 & A3) (B1 & B2 & B3). repeat split; try congruence. eapply incl_tran; eassumption.
+  intros (A1 & A2 & A3 & A4) (B1 & B2 & B3 & B4). repeat split; try congruence. eapply incl_tran; eassumption.
 Qed.
 
 Lemma fold_awrite0_open (f : N -> option N) ks : forall a h,
@@ -263,7 +263,7 @@ Proof.
     destruct (step_keeps_open a o h2 t2 Hf Hh He) as (t2a & Hfa & Hle).
     destruct (keys_step a o Hnd Hne) as [Hnd' Hin'].
     assert (Hwa := wrote_step a o h2 k Hh He Hw).
-    assert (Hda : In k (t_dirty t2a)) by (destruct Hle as (_ & _ & Hi); apply Hi; exact Hd).
+    assert (Hda : In k (t_dirty t2a)) by (destruct Hle as (_ & _ & Hi & _); apply Hi; exact Hd).
     destruct (IH (fst (astep a o)) h2 t2a k Hnd' Hh Hfa (Hin' k Hk) Hwa Hda Hall) as (t2' & H1 & H2 & H3).
     exists t2'. split; [exact H1|]. split; [exact (tx_le_trans _ _ _ Hle H2) | exact H3].
 Qed.
@@ -292,7 +292,7 @@ Proof.
   destruct (persists ops (fst (acommit a t1)) (t_id t2) t2a k Hnd1 Hz Hfa (Hin1 k Hkin) Hw1 Hda Hall)
     as (t2' & F1 & F2 & F3 & F4 & F5 & F6).
   exists t2'. split; [exact F1|].
-  destruct F2 as (Eid & Elvl & _). destruct Hle as (Eid' & Elvl' & _).
+  destruct F2 as (Eid & Elvl & _ & _). destruct Hle as (Eid' & Elvl' & _ & _).
   apply (conflict_of_wrote _ t2' k F4); [rewrite Eid, Eid'; exact F5 | exact F6 | rewrite Elvl, Elvl'; exact Hs | exact F3].
 Qed.
 
